@@ -184,4 +184,39 @@ theorem evalArms_indexed (cx : SemCtx α) (env : Env α) (log : Log α) (v : Val
   have := evalArms_select cx env log v f k hmiss it.variants 0 tail
   simpa [Item.indexed] using this
 
+theorem Out.bind_assoc {β γ δ} (o : Out α β) (f : β → Out α γ) (g : γ → Out α δ) :
+    (o.bind f).bind g = o.bind fun x => (f x).bind g := by
+  cases o <;> rfl
+
+theorem evalStmts_append (cx : SemCtx α) (env : Env α) (log : Log α) (s1 s2 : List Stmt) :
+    evalStmts cx env log (s1 ++ s2) =
+      (evalStmts cx env log s1).bind fun p => evalStmts cx p.1 p.2 s2 := by
+  induction s1 generalizing env log with
+  | nil => simp [evalStmts]
+  | cons s s1 ih =>
+    cases s with
+    | let_ p e =>
+      simp only [List.cons_append, evalStmts, Out.bind_assoc]
+      congr 1; funext x
+      split <;> simp [ih]
+    | semi e =>
+      simp only [List.cons_append, evalStmts, Out.bind_assoc]
+      congr 1; funext x
+      exact ih _ _
+    | ifRet c r =>
+      simp only [List.cons_append, evalStmts, Out.bind_assoc]
+      congr 1; funext x
+      split
+      · simp [Out.bind_assoc]
+      · exact ih _ _
+      · rfl
+    | _ => simp only [List.cons_append, evalStmts]; exact ih _ _
+
+theorem eval_toExpr (cx : SemCtx α) (env : Env α) (log : Log α) (b : Blk) :
+    eval cx env log b.toExpr = (evalStmts cx env log b.stmts).bind fun p => eval cx p.1 p.2 b.tail := by
+  unfold Blk.toExpr
+  split
+  · rename_i h; simp [h, evalStmts]
+  · simp [eval]
+
 end DW
